@@ -2,7 +2,7 @@
 //! assignment that violates a constraint or a gate is rejected.
 use crate::choices::Choices;
 use crate::curves::{Curve, CurveTag};
-use crate::drive::{run_prover, run_verifier, ProveOpts, VerifyOpts};
+use crate::drive::{run_batch, run_prover, run_verifier, BatchMember, ProveOpts, VerifyOpts};
 use crate::model::Violation;
 use crate::program::{gen_program, GenCfg, Op, Program, Sc, Var};
 use crate::runner::{fp_of, replay_corpus, search, Collector, Failure, Report};
@@ -286,6 +286,51 @@ pub fn case<G: CurveTag>(bytes: &[u8], col: &mut Collector, cfg: &GenCfg) -> Res
     }
     if v.panic.is_some() {
         col.note("verifier-panicked-instead-of-rejecting (left to C08)");
+    }
+    // the same proofs through batch verification: alone, and together with the proof of the
+    // *opposite* violation (every injected error negated; constants are not bound by the
+    // transcript, so the two members share all challenges)
+    if bytes.first().map(|b| b % 3 == 0).unwrap_or(false) {
+        let solo = run_batch::<G>(&[BatchMember { prog: &prog, commitments: &p.commitments, proof }], 256, 3);
+        if matches!(solo.0, Some(Ok(()))) {
+            return Err(Failure::new("C02:batch-accepted:alone", format!("batch_verify accepted a proof made from an assignment that violates {:?}", viol), json!({"program": prog.to_json(), "injected": label})));
+        }
+        let mut twin = prog.clone();
+        let mut flipped = true;
+        for l in lists(&twin) {
+            for op in list_mut(&mut twin, l).iter_mut() {
+                if let Op::Constrain { err: Some(e), .. } = op {
+                    *e = match e {
+                        ScalarSpec::One => ScalarSpec::MinusOne,
+                        ScalarSpec::MinusOne => ScalarSpec::One,
+                        ScalarSpec::Small(k) => ScalarSpec::NegSmall(*k),
+                        ScalarSpec::NegSmall(k) => ScalarSpec::Small(*k),
+                        _ => {
+                            flipped = false;
+                            e.clone()
+                        }
+                    };
+                }
+            }
+        }
+        let has_tamper = prog.shape().tamper > 0;
+        if flipped && !has_tamper && prog.shape().errs > 0 {
+            let pt = run_prover::<G>(&twin, &ProveOpts::default());
+            if let Some(pft) = pt.proof.as_ref() {
+                if !pt.model.violations().is_empty() {
+                    let pair = run_batch::<G>(&[BatchMember { prog: &prog, commitments: &p.commitments, proof }, BatchMember { prog: &twin, commitments: &pt.commitments, proof: pft }], 256, 4);
+                    if matches!(pair.0, Some(Ok(()))) {
+                        return Err(Failure::new(
+                            "C02:batch-accepted:opposite-violations",
+                            "batch_verify accepted two proofs made from assignments that violate the same constraints by opposite amounts".to_string(),
+                            json!({"program": prog.to_json(), "twin": twin.to_json(), "injected": label}),
+                        ));
+                    }
+                    col.class("batch:opposite-violations");
+                }
+            }
+        }
+        col.class("batch:alone");
     }
     for part in label.split('+') {
         col.class(&format!("inject:{}", part.split('/').next().unwrap_or("")));
